@@ -71,7 +71,9 @@ pub struct CanonicalFormatter {
 /// ```
 #[derive(Debug, Default)]
 struct Object {
-    obj: BTreeMap<Vec<u8>, Vec<u8>>,
+    /// Members keyed by the content of their key (see `sort_key`); the value holds the serialized
+    /// key and the serialized value.
+    obj: BTreeMap<Vec<u8>, (Vec<u8>, Vec<u8>)>,
     next_key: Vec<u8>,
     next_value: Vec<u8>,
     key_done: bool,
@@ -111,6 +113,31 @@ impl CanonicalFormatter {
             )
         })
     }
+}
+
+/// Recovers the content of an object key from its serialized form: the surrounding quotation marks
+/// are removed and the two escape sequences this formatter produces (`\"` and `\\`) are undone.
+///
+/// Canonical JSON orders object members by their keys. Ordering by the serialized form instead
+/// would let the closing quotation mark and the escape character take part in the comparison
+/// (e.g. `"a!"` would sort before `"a"`).
+fn sort_key(serialized: &[u8]) -> Vec<u8> {
+    let inner = serialized
+        .strip_prefix(b"\"")
+        .and_then(|s| s.strip_suffix(b"\""))
+        .unwrap_or(serialized);
+    let mut key = Vec::with_capacity(inner.len());
+    let mut bytes = inner.iter();
+    while let Some(&b) = bytes.next() {
+        if b == b'\\' {
+            if let Some(&escaped) = bytes.next() {
+                key.push(escaped);
+            }
+        } else {
+            key.push(b);
+        }
+    }
+    key
 }
 
 /// Wraps `serde_json::CompactFormatter` to use the appropriate writer (see
@@ -238,7 +265,7 @@ impl Formatter for CanonicalFormatter {
         let mut writer = self.writer(writer);
         let mut first = true;
 
-        for (key, value) in object.obj {
+        for (_, (key, value)) in object.obj {
             CompactFormatter.begin_object_key(&mut writer, first)?;
             writer.write_all(&key)?;
             CompactFormatter.end_object_key(&mut writer)?;
@@ -273,7 +300,7 @@ impl Formatter for CanonicalFormatter {
         let object = self.obj_mut()?;
         let key = std::mem::take(&mut object.next_key);
         let value = std::mem::take(&mut object.next_value);
-        object.obj.insert(key, value);
+        object.obj.insert(sort_key(&key), (key, value));
         Ok(())
     }
 
